@@ -18,6 +18,7 @@
   R11 empty label sets first / last labels are read only under a size guard (_common_axis, union, intersection); reindexing from an
                       empty source axis (np.take from empty raises) must be guarded
   R12 datasets        Dataset.reindex_axis (used when a Dataset is in the list) against DimArray.reindex_axis (rule shared with C14)
+  R13 fold direction  the union direction table (R10) composed over the right fold of _common_axis (R2) for every sequence of 3-4 operand directions
   R9 common kind      _get_cast_kind evaluated on every pair of kinds: equal -> same, object wins, float over int
 """
 from .. import terms as T
@@ -551,7 +552,11 @@ def rule_merge_cast(ctx, r8='R8', r9='R9'):
                              'by the cast before the union / intersection' % (k0, k1, got, want))
 
 
+UNION_TABLE = {}
+
+
 def rule_union_direction(ctx):
+    UNION_TABLE.clear()
     """R10: "inputs that are all sorted in the same direction give a result sorted in that direction".
     Axis.union is evaluated for every pair of directions (increasing / decreasing / single label, which fits either direction) and
     three relative placements of the two label ranges; the end labels are the only values the code may look at (comparisons of
@@ -581,6 +586,7 @@ def rule_union_direction(ctx):
         ev = run(ctx, fi, oracle=oracle)
         inst = 'A %s, B %s, B shifted by %d' % (da, db, shift)
         rets = ret_paths(ev)
+        outcomes = UNION_TABLE.setdefault((da, db), set())
         # paths that still depend on an undecided end comparison would show up as extra forks: all must satisfy the clause
         mixed = set((da, db)) == set(('inc', 'dec'))
         ok = True
@@ -592,9 +598,11 @@ def rule_union_direction(ctx):
                 ok = False
                 continue
             if mixed:
+                outcomes.add('unsorted' if not any(c[0] == 'call' and T.dotted(c[1]) in ('np.union1d', 'numpy.union1d') for c in T.subterms(v)) else 'sorted')
                 continue
             u = [c for c in T.subterms(v) if c[0] == 'call' and T.dotted(c[1]) in ('np.union1d', 'numpy.union1d')]
             rev = [x for x in T.subterms(v) if x[0] == 'sub' and x[2][0] == 'slice' and x[2][3] == const(-1) and u and T.contains(x[1], u[0])]
+            outcomes.add('unsorted' if not u else ('dec' if rev else 'inc'))
             want_rev = 'dec' in (da, db)
             if not u:
                 ctx.violated('R10', fi, 'union of two operands sorted the same way', 'with %s both operands are monotonic in compatible directions, but the labels are '
@@ -702,6 +710,57 @@ def rule_empty_labels(ctx):
         ctx.holds('R11', 'reindex_axis: take from the source axis guarded by a size test')
 
 
+def rule_fold_direction(ctx):
+    """R13: the direction clause for *lists* of inputs.  R2 establishes that _common_axis is the right fold ax0.union(_common_axis(axes[1:])), R10 gives Axis.union's
+    direction table (extracted from the source, one entry per pair of operand directions).  Composing the two over every sequence of 3-4 operand directions
+    decides whether inputs that are all sorted the same way (single-label inputs fit either way) come out sorted that way."""
+    import itertools
+    ctx.rule('R13', 'direction of the common axis for lists of 3-4 inputs (fold of the union table)', 1)
+    if not UNION_TABLE or any(len(v) != 1 for k, v in UNION_TABLE.items() if set(k) != set(('inc', 'dec'))):
+        ctx.undecide('R13', 'the union direction table of R10 is not functional: %s' % {k: sorted(v) for k, v in UNION_TABLE.items()})
+        return
+    tab = {k: sorted(v)[0] for k, v in UNION_TABLE.items()}
+
+    def union(a, b):
+        if 'unsorted' in (a, b):
+            return 'unsorted'
+        r = tab.get((a, b))
+        if r is None:
+            return 'unsorted'
+        if (a, b) == ('single', 'single'):
+            return r                 # two labels: the direction union1d gave them
+        return r
+
+    def fold(seq):
+        if len(seq) == 1:
+            return seq[0]
+        return union(seq[0], fold(seq[1:]))
+    failing = []
+    nseq = 0
+    for n in (3, 4):
+        for seq in itertools.product(['inc', 'dec', 'single'], repeat=n):
+            if 'inc' in seq and 'dec' in seq:
+                continue
+            nseq += 1
+            want = 'dec' if 'dec' in seq else 'inc'
+            got = fold(list(seq))
+            if 'inc' not in seq and 'dec' not in seq:
+                ok = got in ('inc', 'dec')
+            else:
+                ok = got == want
+            if not ok:
+                failing.append((seq, got, want))
+    minimal = sorted(set(','.join(s) for s, g, w in failing if len(s) == 3))
+    if failing:
+        seq, got, want = failing[0]
+        ctx.violated('R13', ctx.fn(AL + '_common_axis'), 'fold loses the direction for: ' + ' | '.join(minimal),
+                     'align() of inputs stored (%s): all sorted the same way (single-label inputs fit either direction), but the right fold of Axis.union gives a result that is %s instead of %s - '
+                     'two single-label axes are merged first (ascending, by np.union1d) and then clash with the decreasing one; %d of %d direction sequences of length 3-4 fail' % (
+                         ', '.join(seq), got, want, len(failing), nseq))
+    else:
+        ctx.holds('R13', '%d direction sequences of length 3-4 keep their common direction through the fold' % nseq)
+
+
 def rule_env(ctx):
     ctx.rule('R6', 'NumPy names reachable from align() resolve', 1)
     npapi.check_reachable(ctx, 'R6', [ctx.fn(AL + 'align'), ctx.fn(AX + 'Axis.union'), ctx.fn(AX + 'Axis.intersection')], depth=3)
@@ -714,6 +773,7 @@ def check(ctx):
     rule_sort_ownership(ctx)
     rule_merge_cast(ctx)
     rule_union_direction(ctx)
+    rule_fold_direction(ctx)
     rule_empty_labels(ctx)
     rule_env(ctx)
     # the reindex step that align() delegates to (each input keeps its data at its labels, NaN elsewhere)
